@@ -1,4 +1,4 @@
 From Coq Require Import Extraction ExtrOcamlBasic.
 From Verif Require Import C17.Model.
 Definition m_new := Model.new.
-Extraction "c17.ml" step m_new normalize level.
+Extraction "c17.ml" step m_new normalize level deliver calls recovered.
